@@ -67,7 +67,8 @@ ASSUMPTIONS = ['quad stub: the value of an integral is an arbitrary real (in the
                'function congruence for the atoms sin, cos, arccos, exp (equal arguments give equal values) is supplied '
                'to z3 as instances',
                'trusted trigonometric facts supplied as instances: cos(arccos c) = c and sin(arccos c) = sqrt(1-c^2) on '
-               '[-1,1]; sin(2 pi j) = 0 for the integer j of a split point; 1 - z <= exp(-z) <= 1 for z >= 0',
+               '[-1,1]; sin(2 pi j) = 0 for the integer j of a split point (used outside z3: the claim proved is phase = 2 pi j); '
+               '1 - z <= exp(-z) <= 1 for z >= 0',
                'CODATA 2018 values for the radiation constant and k_B/e, exact c, as reference (tolerance 1e-4)']
 META = {
     'level_text': ('Bounded symbolic check of the real Su-Olson code: position, time, epsilon, the integration variable and '
@@ -104,9 +105,9 @@ class SymNumerics(object):
     variable and at the last split point); brentq -> fresh root of the real root function."""
     symbolic = True
 
-    def __init__(self, m, probes, npieces, contract=True, edges=True):
+    def __init__(self, m, probes, npieces, edges=()):
         self.m, self.probes, self.np = m, probes, npieces
-        self.contract, self.edges = contract, edges
+        self.edges = edges          # integrands whose split points are examined (integrand and root function at r)
         self.calls = []
         self.pending = None
 
@@ -117,11 +118,9 @@ class SymNumerics(object):
         ex.assume(T.le(r.t, term_of(b)))
         ex.assume(T.gt(r.t, T.const(TINY)))
         ex.assume(T.lt(r.t, T.const(1 - TINY)))
-        if self.edges:
-            ex.assume(T.gt(T.mul(r.t, term_of(self.m.epsilon)), T.const(TINY)))
-        if self.contract:
-            ex.assume(T.eq(term_of(f(r)), T.ZERO))
-        self.pending = (f.__name__, r, self.m.jwant)
+        # the contract f(r) == 0 is NOT put into the path condition (it would burden every later feasibility
+        # query with arccos atoms and nested roots): it is handed to the claims that need it as a hypothesis
+        self.pending = (f, r, self.m.jwant)
         return r
 
     def quad(self, f, a, b, *args, **kw):
@@ -129,13 +128,15 @@ class SymNumerics(object):
         name = f.__name__
         k = 1 + sum(1 for c in self.calls if c['name'] == name)
         q = ex.fresh('quad')
-        rec = dict(name=name, k=k, a=a, b=b, q=q, edge=None, j=None, root=None)
+        rec = dict(name=name, k=k, a=a, b=b, q=q, edge=None, j=None, root=None, rooteq=None)
         if self.pending is not None:
             small = T.le(T.absval(q.t), T.const(EPS2))
             ex.assume(T.lnot(small) if k <= self.np else small)
-            rec['root'], rec['j'] = self.pending[1], self.pending[2]
-            if self.edges:
-                rec['edge'] = f(self.pending[1])
+            rootf, r, j = self.pending
+            rec['root'], rec['j'] = r, j
+            if name in self.edges:
+                rec['rooteq'] = rootf(r)
+                rec['edge'] = f(r)
         rec['probe'] = f(self.probes[name]) if name in self.probes else None
         self.calls.append(rec)
         self.pending = None
@@ -158,7 +159,14 @@ class RealNumerics(object):
 
     def brentq(self, f, a, b, *args, **kw):
         r = self._brentq(f, a, b, *args, **kw)
-        self.pending = (f.__name__, r, self.m.jwant)
+        rs = r
+        if not self.light:
+            # the code asks for xtol = 1e-6; the claim is about exact zeros of the root function: polish the root
+            try:
+                rs = self._brentq(f, a, b, xtol=1e-15, rtol=4 * np.finfo(float).eps, maxiter=500)
+            except Exception:
+                rs = r
+        self.pending = (f, rs, self.m.jwant)
         return r
 
     def quad(self, f, a, b, *args, **kw):
@@ -166,16 +174,16 @@ class RealNumerics(object):
         k = 1 + sum(1 for c in self.calls if c['name'] == name)
         val = 0.0 if self.zero else self._quad(f, a, b, *args, **kw)[0]
         val += self.pert.get((name, k), 0.0)
-        rec = dict(name=name, k=k, a=a, b=b, q=val, edge=None, j=None, root=None, probe=None)
+        rec = dict(name=name, k=k, a=a, b=b, q=val, edge=None, j=None, root=None, probe=None, rooteq=None)
         if self.light:
             self.calls.append(rec)
             self.pending = None
             return (val, 0.0)
         if self.pending is not None:
-            r = self.pending[1]
-            rec['root'], rec['j'] = r, self.pending[2]
+            rootf, r, j = self.pending
+            rec['root'], rec['j'], rec['rooteq'] = r, j, rootf(r)
             sc = max([abs(f(a + (b - a) * i / 16.0)) for i in range(1, 16)] + [1e-300])
-            rec['edge'] = f(r) / sc          # relative to the size of the integrand on the piece
+            rec['edge'] = f(r) / sc          # (at the polished root) relative to the size of the integrand on the piece
         rec['probe'] = f(self.probes[name]) if name in self.probes else None
         self.calls.append(rec)
         self.pending = None
@@ -214,7 +222,7 @@ def installed(m, num):
             setattr(m, n, f)
 
 
-def analyse(m, mk, which, args, probes, npieces=1, contract=True, edges=True):
+def analyse(m, mk, which, args, probes, npieces=1, edges=()):
     """Run the real usolution (which='u') or vsolution ('v') once and take the result apart.
 
     Before the call the common block holds the values of an unrelated earlier call (x_prev, tau_prev,
@@ -235,7 +243,7 @@ def analyse(m, mk, which, args, probes, npieces=1, contract=True, edges=True):
 
     out = {}
     if symbolic:
-        num = SymNumerics(m, probes, npieces, contract, edges)
+        num = SymNumerics(m, probes, npieces, edges)
         val, cb, ref = call(num)
         vt = term_of(val)
         zero_all = dict((c['q'].t, T.ZERO) for c in num.calls)
@@ -286,10 +294,12 @@ def analyse(m, mk, which, args, probes, npieces=1, contract=True, edges=True):
         if c['edge'] is not None:
             out['edge_' + tag] = c['edge']
             out['j_' + tag] = c['j']
+            out['rooteq_' + tag] = c['rooteq']
     for name in probes:
         out['R_' + name] = ref[name]
     for name in INTEGRANDS[which]:
         out['n_' + name] = sum(1 for c in num.calls if c['name'] == name)
+        out['osc_' + name] = int(any(c['root'] is not None for c in num.calls if c['name'] == name))
     out['cb_posx'], out['cb_tau'], out['cb_epsilon'] = cb
     return out
 
@@ -329,14 +339,24 @@ def arccos_facts(cx, vals):
     return SymBool(T.land(*conds)) if conds else None
 
 
-def zero_phase_fact(cx, val, j):
-    """phase == 2 pi j  ->  sin(phase) == 0"""
+def split_claims(cx, name, edge, j, rooteq):
+    """The integrand vanishes at a split point r: (i) it is sin(phase) times something, (ii) phase(r) == 2 pi j
+    for every r with rootfunction(r) == 0 (the brentq contract, here a hypothesis of the claim); sin(2 pi j) = 0 is
+    the trusted fact.  Numeric replay: |integrand(r)| relative to its size on the piece, at the root of the real
+    root function in the bracket the code used, polished to machine precision."""
+    l1 = 'split point of %s: the integrand is sin(phase) times a factor' % name
+    l2 = 'split point of %s: phase = 2 pi j at any zero of the root function used (so the integrand vanishes)' % name
     if not cx.symbolic:
-        return True
-    conds = []
-    for n in _fn_nodes([term_of(val)], 'sin'):
-        conds.append(T.implies(T.eq(n.args[1], T.mul(T.const(2 * j), T.var('PI'))), T.eq(n, T.ZERO)))
-    return SymBool(T.land(*conds)) if conds else None
+        cx.eq(l1, edge, 0, scale=[1.0], tol=1e-3)
+        cx.eq(l2, edge, 0, scale=[1.0], tol=1e-3)
+        return
+    et = term_of(edge)
+    sins = _fn_nodes([et], 'sin')
+    if len(sins) != 1:
+        cx.true(l1, False)
+        return
+    cx.true(l1, SymBool(T.eq(et, T.mul(sins[0], T.substitute(et, {sins[0]: T.ONE})))))
+    cx.eq(l2, SymReal(sins[0].args[1]), 2 * j * cx.const('PI'), when=SymBool(T.eq(term_of(rooteq), T.ZERO)))
 
 
 def exp_bounds(cx, vals):
@@ -348,6 +368,25 @@ def exp_bounds(cx, vals):
         z = n.args[1]
         conds.append(T.implies(T.le(z, T.ZERO), T.land(T.le(n, T.ONE), T.le(T.add(T.ONE, z), n))))
     return SymBool(T.land(*conds)) if conds else None
+
+
+def d_dx(cx, f):
+    """df/dx; the numeric replay differentiates at x >= 0.01 (central differences at x = 0 would call the real
+    usolution with a negative position)"""
+    if cx.symbolic or cx.p('x') >= 0.01:
+        return cx.d(f, 'x')
+    return cx.at(x=0.01).d(f, 'x')
+
+
+def d2_dx2(cx, f):
+    """d2f/dx2; numeric replay: five-point stencil with a step that keeps round-off small (the integrands are
+    defined for every real x)"""
+    if cx.symbolic:
+        return cx.d(f, 'x', 2)
+    x0 = cx.p('x')
+    h = 2e-3 * max(1.0, abs(x0))
+    v = [float(f(cx.at(x=x0 + i * h))) for i in (-2, -1, 0, 1, 2)]
+    return (-v[0] + 16 * v[1] - 30 * v[2] + 16 * v[3] - v[4]) / (12 * h * h)
 
 
 def at_x0(cx, f):
@@ -461,8 +500,7 @@ class Kernel(Obligation):
     uses_derivatives = True
     which = 'uv'
     fam1 = fam2 = True
-    contract = False
-    edges = False
+    edges = ()
     npieces = 1
     probe_all = False       # probe the family-1 integrand at the plain variable eta when fam1 is off
     # the oscillatory / non-oscillatory decision is nondeterministic in the symbolic run, so the float run at a
@@ -499,7 +537,7 @@ class Kernel(Obligation):
             if self.fam2:
                 probes[INTEGRANDS[w][1]] = e2
             args = (x, tau, eps) if w == 'u' else (x, tau, eps, mk('uans'))
-            r = analyse(m, mk, w, args, probes, self.npieces, self.contract, self.edges)
+            r = analyse(m, mk, w, args, probes, self.npieces, self.edges)
             for k, v in r.items():
                 out[w + ':' + k] = v
         if self.fam1:
@@ -547,7 +585,7 @@ class Weights(Kernel):
         cx.eq('weight of INT vpart2 = -(weight of INT upart2)', cv2(cx), -cu2(cx))
         cx.eq('weight of uans in v is 1', cx['v:c_uans'], 1)
         for name, f in (('upart1', cu1), ('upart2', cu2), ('vpart1', cv1), ('vpart2', cv2)):
-            cx.eq('weight of INT %s does not depend on x' % name, cx.d(f, 'x'), 0, scale=sc)
+            cx.eq('weight of INT %s does not depend on x' % name, d_dx(cx, f), 0, scale=sc)
             if name.endswith('1'):
                 cx.eq('weight of INT %s does not depend on tau' % name, cx.d(f, 'tau'), 0, scale=sc)
             else:
@@ -590,7 +628,7 @@ class PdeFamily(Obligation):
     def claims(self, cx):
         eps = cx.p('eps')
         U, W = (lambda c: c['U']), (lambda c: c['W'])
-        Ut, Uxx, Wt, Wv = cx.d(U, 'tau'), cx.d(U, 'x', 2), cx.d(W, 'tau'), W(cx)
+        Ut, Uxx, Wt, Wv = cx.d(U, 'tau'), d2_dx2(cx, U), cx.d(W, 'tau'), W(cx)
         tag = 'family %d: ' % self.fam
         pde = [(tag + 'eps*u_tau = u_xx + (v-u) for the weighted integrands', [eps * Ut, -Uxx, -Wv]),
                (tag + 'v_tau = u - v for the weighted integrands', [Ut, Wt, Wv])]
@@ -696,54 +734,67 @@ class Marshak(Obligation):
                     [U0, -2 * Ux0 / s3], when=w)
 
 
-class Decay(Kernel):
-    """Dirichlet normalisation.  upart1 is the only integrand whose amplitude is not integrable (1/eta at 0);
-    as x -> infinity its integral tends to (pi/2) lim eta*amplitude, every other integral to 0
-    (Riemann-Lebesgue), so u -> 0 needs  u_const + cu1 (pi/2) lim_{eta->0} eta*amplitude = 0.
-    The limit is pinned by a two-sided bound valid for all eta in (0, 1/2]."""
-    which = 'u'
-    uses_derivatives = False
+class Decay(Obligation):
+    """Dirichlet normalisation (necessary for u -> 0 as x -> infinity).  upart1 is the only integrand whose
+    amplitude is not integrable (like 1/eta at 0): as x -> infinity its integral tends to (pi/2) * lim eta*amplitude
+    (Dirichlet integral) and every other integral to 0 (Riemann-Lebesgue), so u -> 0 needs
+        u_const + cu1 * (pi/2) * lim_{eta->0} eta*amplitude(eta) = 0.
+    Here: b = eta*amplitude satisfies, for all 0 < eta <= 1/2,  b > 0,  3 b^2 <= 1  and
+    b^2 (3 + 4 eta^2 (eps + 4/3)) >= (1 - tau eta^2)^2 (when tau eta^2 <= 1), hence b -> 1/sqrt 3.
+    C18.structure.u proves the matching statement about the weight: (cu1 pi/2)^2 = 3 u_const^2, cu1 < 0."""
 
     def __init__(self):
-        self._init('C18.decay', 'tau>0, eps>0, 0<eta<=1/2 symbolic (x enters only through the phase, which is removed)')
-        self.fam1, self.fam2, self.probe_all = False, True, True     # upart1 probed at the plain variable eta
+        self.id = 'C18.decay'
+        self.m = m = H.mod(TM)
+        self.modules = [m]
+        self.functions = [m.upart1, m.gamma_one, m.theta_one, m.gamma_one_root]
+        self.bounds = 'x>=0, tau>0, eps>0, 0<eta<=1/2 symbolic; amplitude = upart1 with its sin factor replaced by 1'
+        self.timeout_s = 60
+        self.timeout_thorough_s = 600
+
+    def build(self, mk):
+        m = self.m
+        x, tau, eps, e = mk('x'), mk('tau'), mk('eps'), mk('eta')
+        with common_block(m, x, tau, eps):
+            P = m.upart1(e)
+            if Mode.symbolic(mk):
+                sins = _fn_nodes([term_of(P)], 'sin')
+                amp = SymReal(T.substitute(term_of(P), dict((n, T.ONE) for n in sins)))
+                return {'P': P, 'b': e * amp, 'nsin': len(sins)}
+            m.jwant = 0
+            return {'P': P, 'b': e * P / math.sin(m.gamma_one_root(e)), 'nsin': 1}
 
     def domain(self, V):
-        return kernel_domain(V, False, True) + [T.le(V('eta'), T.HALF)]
+        return kernel_domain(V, False, True, stale=False) + [T.le(V('eta'), T.HALF)]
 
     def claims(self, cx):
         eta, tau, eps = cx.p('eta'), cx.p('tau'), cx.p('eps')
-        P = cx['u:P_upart1_1']
-        if cx.symbolic:
-            sins = _fn_nodes([term_of(P)], 'sin')
-            amp = SymReal(T.substitute(term_of(P), dict((n, T.ONE) for n in sins)))
-            pi = cx.const('PI')
-            one_osc = len(sins) == 1
-        else:
-            m = self.m
-            saved = (m.posx, m.tau, m.epsilon, m.jwant)
-            m.posx, m.tau, m.epsilon, m.jwant = cx.p('x'), tau, eps, 0
-            try:
-                amp = m.upart1(eta) / math.sin(m.gamma_one_root(eta))
-            finally:
-                m.posx, m.tau, m.epsilon, m.jwant = saved
-            pi = math.pi
-            one_osc = True
-        B = -cx['u:c_upart1_1'] * (pi / 2) * eta * amp
-        w = exp_bounds(cx, [B])
-        cx.true('upart1 has exactly one oscillating factor', one_osc)
-        cx.le('Dirichlet normalisation, upper bound: -cu1*(pi/2)*eta*amplitude <= u_const (+1e-13)', B, cx['u:const'] + TOL, when=w)
-        cx.ge('Dirichlet normalisation, lower bound: ... >= u_const - (tau+eps+2)*eta^2 (-1e-13)', B,
-              cx['u:const'] - TOL - (tau + eps + 2) * eta * eta, when=w)
-        cx.eq('constant part of u is 1', cx['u:const'], 1)
+        b = cx['b']
+        w = exp_bounds(cx, [b])
+        cx.true('upart1 has exactly one oscillating factor', cx['nsin'] == 1)
+        cx.gt('eta*amplitude > 0', b, 0)
+        cx.le('upper envelope: 3 (eta*amplitude)^2 <= 1', 3 * b * b, 1, when=w)
+        small = (tau * eta * eta <= 1)
+        cx.ge('lower envelope: (eta*amplitude)^2 (3 + 4 eta^2 (eps + 4/3)) >= (1 - tau eta^2)^2',
+              b * b * (3 + 4 * eta * eta * (eps + Fraction(4, 3))), (1 - tau * eta * eta) ** 2,
+              when=(w & small) if cx.symbolic else small)
+
+
+def _unclamped(builtin):
+    """min/max with one concrete and one symbolic argument (the 1e-14 regularisation clamps of timmes.py):
+    returns the symbolic argument, i.e. the clamp is taken to be inactive without asking the solver."""
+    def f(a, b):
+        sa, sb = isinstance(a, SymReal), isinstance(b, SymReal)
+        if sa and not sb:
+            return a
+        if sb and not sa:
+            return b
+        return builtin(a, b)
+    return f
 
 
 class Structure(Kernel):
     """bookkeeping of one solution function on every branch"""
-    contract = True
-    edges = True
-    fam1, fam2, probe_all = False, True, True        # both integrands probed at the plain variable eta
-
     def __init__(self, which, npieces):
         self.which = which
         self.npieces = npieces
@@ -758,8 +809,12 @@ class Structure(Kernel):
         if w == 'u':
             c0 = lambda c: c['u:const']
             cx.eq('constant part of u is 1 (inhomogeneous Marshak condition, trivial solution of the equations)', g('const'), 1)
-            cx.eq('constant part of u does not depend on x', cx.d(c0, 'x'), 0, scale=None if cx.symbolic else [1.0])
+            cx.eq('constant part of u does not depend on x', d_dx(cx, c0), 0, scale=None if cx.symbolic else [1.0])
             cx.eq('constant part of u does not depend on tau', cx.d(c0, 'tau'), 0, scale=None if cx.symbolic else [1.0])
+            cw = g('c_upart1_1') * cx.const('PI') / 2
+            cx.le('Dirichlet normalisation of the weight of INT upart1: (cu1 pi/2)^2 = 3 u_const^2 (rel 1e-12)',
+                  cx.abs(cw * cw - 3 * g('const') * g('const')), 30 * TOL)
+            cx.lt('weight of INT upart1 is negative', g('c_upart1_1'), 0)
         else:
             cx.eq('v has no constant part', g('const'), 0, scale=None if cx.symbolic else [1.0])
             cx.eq('v = u + integrals (weight of uans is 1)', g('c_uans'), 1)
@@ -783,15 +838,46 @@ class Structure(Kernel):
                     prev = 1 if k == 1 else g('a_%s_%d' % (name, k - 1))
                     cx.eq('pieces of %s tile [., 1] downwards from 1' % name, b, prev)
                     far = a
-                if (w + ':edge_' + tag) in cx:
-                    e = g('edge_' + tag)
-                    cx.eq('split point of %s is a zero of that integrand' % name, e, 0,
-                          when=zero_phase_fact(cx, e, g('j_' + tag)), scale=None if cx.symbolic else [1.0], tol=0.05)
-                elif n == 1:
+                if not g('osc_' + name):
                     cx.eq('non-oscillatory %s is integrated over the whole of [0,1]' % name, far, 1 - ANCHOR[name])
+                    cx.true('non-oscillatory %s is integrated in one piece' % name, n == 1)
+
+
+class Split(Kernel):
+    """The oscillatory integrals are split where the integrand vanishes: every split point returned by brentq for
+    the root function the code pairs with an integrand is a zero of that integrand.  Here (only) the 1e-14 clamps
+    are taken to be inactive without a solver query (each would put a nested-root inequality at every split
+    point into the path condition); that they are inactive on the stated domain is established by the path
+    exploration of pde.*, marshak, decay and structure.*, which run the unmodified min/max and find the clamped
+    branches infeasible."""
+    fam1 = fam2 = False
+    uses_derivatives = False
+
+    def __init__(self, name, npieces):
+        self.name = name
+        self.which = name[0]
+        self.npieces = npieces
+        self.edges = (name,)
+        self._init('C18.split.%s' % name,
+                   'x>=0, tau>0, eps>0 symbolic; split point = any zero of the real root function strictly inside the '
+                   'clamps; %d split points on the oscillatory branch; 1e-14 clamps taken as inactive' % (npieces + 1))
+        self.extra_shim = {'max': _unclamped(max), 'min': _unclamped(min)}
+
+    def claims(self, cx):
+        w, name = self.which, self.name
+        n = cx[w + ':n_' + name]
+        seen = False
+        for k in range(1, n + 1):
+            tag = '%s_%d' % (name, k)
+            if (w + ':edge_' + tag) in cx:
+                seen = True
+                split_claims(cx, name, cx[w + ':edge_' + tag], cx[w + ':j_' + tag], cx[w + ':rooteq_' + tag])
+        if not seen:
+            cx.true('no split point on the non-oscillatory branch of %s' % name, not cx[w + ':osc_' + name])
 
 
 def obligations(tier):
     npieces = 1 if tier == 'quick' else 2
     obs = [SoWave(), Weights(), PdeFamily(2), PdeFamily(1), Marshak(), Decay(), Structure('u', npieces), Structure('v', npieces)]
+    obs += [Split(name, npieces) for w in 'uv' for name in INTEGRANDS[w]]
     return obs
